@@ -453,12 +453,69 @@ def _pipeline(ck, fx):
     ok_prog = bool(prog and ast and a is not None) and local_of(a) is not None and local_of(a)[0] == ast[0]
     ev = [x for n, ps in walk_body(b) for x in [n] if n.get("k") == "Call" and callee_name(n) == A.get("evaluate_mem")]
     ok_ev = bool(prog) and len(ev) == 1 and local_of(ev[0]["args"][0]) is not None and local_of(ev[0]["args"][0])[0] == prog[0]
+    if not (ok_src and ok_ast and ok_prog and ok_ev):
+        # not the plain let-chain (helpers extracted, steps regrouped): decide the same data flow by executing the action
+        # symbolically with the four stage functions kept as opaque calls
+        sem = _pipeline_symbolic(fx, b)
+        if sem is not None:
+            ok_src, ok_ast, ok_prog, ok_ev = sem
     ck.ob("R1.pipeline", "run: selected input → parse → compile → evaluate", ok_src and ok_ast and ok_prog and ok_ev, loc(b),
           "input from selected_input: %s; AST parsed from it: %s; program compiled from that AST: %s; that program is evaluated: %s" % (ok_src, ok_ast, ok_prog, ok_ev))
     # every Result reaches expect (shared discipline rule, reported here for the run action)
     from . import shared
     n0 = len(ck.obligs)
     shared.result_discipline(ck, fx, b, "R1.pipeline")
+
+
+def _pipeline_symbolic(fx, b):
+    from ..symex import Executor, Client, State
+
+    STAGES = {"selected_input": lambda p: p.endswith("::selected_input"),
+              "into_string": lambda p: p.endswith("NamedSource::into_string"),
+              "parse": lambda p: p.endswith("TopLevelParser::parse"),
+              "compile": lambda p: p == A.get("compile.pub"),
+              "evaluate": lambda p: p == A.get("evaluate_mem")}
+
+    class C(Client):
+        name = "pipeline"
+        inline_depth = 6
+
+        def no_inline(self, path):
+            return any(f(path) for f in STAGES.values())
+
+    def mentions(t, sub):
+        if t == sub:
+            return True
+        if isinstance(t, tuple):
+            return any(mentions(x, sub) for x in t if isinstance(x, tuple))
+        return False
+    try:
+        ex = Executor(fx, C())
+        res = ex.run_body(b, [("var", "self")], State())
+    except Exception:
+        return None
+    best = None
+    for s_, o in res:
+        if o[0] != "val":
+            continue
+        calls = {}
+        for e in s_.eff:
+            if e["k"] == "call":
+                for k, f in STAGES.items():
+                    if f(e["args"][0][1]):
+                        calls.setdefault(k, []).append(e)
+        if not all(k in calls for k in STAGES):
+            continue
+        one = all(len(v) == 1 for k, v in calls.items() if k in ("parse", "compile", "evaluate"))
+        si, st, pa, co, ev = (calls[k][0] for k in ("selected_input", "into_string", "parse", "compile", "evaluate"))
+        ok_src = any(mentions(a, si["res"]) for a in st["args"][1:])
+        ok_ast = any(mentions(a, st["res"]) for a in pa["args"][1:])
+        ok_prog = len(co["args"]) > 1 and mentions(co["args"][1], pa["res"])
+        ok_ev = one and len(ev["args"]) > 1 and mentions(ev["args"][1], co["res"])
+        cand = (ok_src, ok_ast, ok_prog, ok_ev)
+        if best is None or sum(cand) > sum(best):
+            best = cand
+    return best
 
 
 COMPOSED = ["C02", "C05", "C07", "C09", "C10", "C12", "C13", "C14", "C15"]
